@@ -13,6 +13,7 @@ package main
 import (
 	"encoding/json"
 	"errors"
+	"io"
 	"fmt"
 	"math"
 	"sort"
@@ -23,6 +24,7 @@ import (
 	"github.com/compose-spec/compose-go/v2/loader"
 	"github.com/compose-spec/compose-go/v2/template"
 	"github.com/compose-spec/compose-go/v2/tree"
+	"github.com/sirupsen/logrus"
 
 	"verifharness/core"
 )
@@ -492,8 +494,10 @@ func varForms(text string, split int) []varForm {
 	return fs
 }
 
-var c08Strings = []string{"", "x", "a b", "nginx:1.2", "$$", "a$$b", "${A}", "$A", "${A:-d}", "${B:-${A}}", "${U:?need}", "${U?}", "${", "${A", "$", "$ x", "${1}", "${A:-a}b}", "pre${A}post",
-	"true", "yes", "5", "0.5", "-3", "${N}", "${T}", "line1\nline2${A}", "é世", "a.b", "${E:-}", "${E-z}", "${A:+alt}", "$$${A}", "${}", "${A!}"}
+var c08StringsValid = []string{"", "x", "a b", "nginx:1.2", "$$", "a$$b", "${A}", "$A", "${A:-d}", "${B:-${A}}", "$", "$ x", "${A:-a}b}", "pre${A}post",
+	"true", "yes", "5", "0.5", "-3", "line1\nline2${A}", "é世", "a.b", "${E:-}", "${E-z}", "${A:+alt}", "$$${A}", "${U:-u}", "${U-}"}
+var c08StringsBad = []string{"${U:?need}", "${U?}", "${", "${A", "${1}", "${}", "${A!}", "${N}", "${T}"}
+var c08Strings = append(append([]string{}, c08StringsValid...), c08StringsBad...)
 var c08Envs = []map[string]string{
 	{"A": "v", "N": "7", "T": "on", "E": ""},
 	{"A": "", "N": "x", "T": "maybe"},
@@ -576,10 +580,13 @@ func runC08(ctx *core.Ctx) {
 		}
 		switch {
 		case k < 4:
-			if ctx.Rng.Intn(3) == 0 {
-				return texts[ctx.Rng.Intn(len(texts))]
+			if malformed {
+				if ctx.Rng.Intn(3) == 0 {
+					return texts[ctx.Rng.Intn(len(texts))]
+				}
+				return c08Strings[ctx.Rng.Intn(len(c08Strings))]
 			}
-			return c08Strings[ctx.Rng.Intn(len(c08Strings))]
+			return c08StringsValid[ctx.Rng.Intn(len(c08StringsValid))]
 		case k == 4:
 			return []any{nil, true, false, 0, 7, -1, 0.5, int(1 << 40)}[ctx.Rng.Intn(8)]
 		case k == 5:
@@ -621,6 +628,8 @@ func runC08(ctx *core.Ctx) {
 		// a compose-like skeleton: some cast rows instantiated with random leaves, merged with random subtrees
 		t := map[string]any{}
 		malformed := i%5 == 4
+		env := rndEnv()
+		env["EMPTY"], env["SET"] = "", "1"
 		for j := ctx.Rng.Intn(4); j > 0; j-- {
 			pat := pats[ctx.Rng.Intn(len(pats))]
 			var leaf any
@@ -628,8 +637,16 @@ func runC08(ctx *core.Ctx) {
 				leaf = rnd(2, true)
 			} else {
 				text := texts[ctx.Rng.Intn(len(texts))]
+				if !malformed || ctx.Rng.Intn(2) == 0 {
+					text = validTextFor(pat, ctx.Rng.Intn(1000))
+				}
 				fs := varForms(text, ctx.Rng.Intn(1000))
-				leaf = fs[ctx.Rng.Intn(len(fs))].Tmpl
+				f := fs[ctx.Rng.Intn(len(fs))]
+				vn := fmt.Sprintf("V%d", j)
+				leaf = strings.Replace(strings.Replace(f.Tmpl, "${V}", "${"+vn+"}", 1), "$V", "$"+vn, 1)
+				if v, ok := f.Env["V"]; ok {
+					env[vn] = v
+				}
 			}
 			mergeInto(t, instantiate(pat, []string{"a", "b", "s.1"}[ctx.Rng.Intn(3)], leaf))
 		}
@@ -641,10 +658,22 @@ func runC08(ctx *core.Ctx) {
 		} else {
 			ctx.Count("random-tree")
 		}
-		ctx.Add("interpolate", interpArgs{Tree: core.EncodeVal(t), Env: rndEnv()})
+		ctx.Add("interpolate", interpArgs{Tree: core.EncodeVal(t), Env: env})
 	}
 
 	runC08Loads(ctx)
+}
+
+// validTextFor picks a text the caster of the row accepts.
+func validTextFor(pat string, n int) string {
+	c := castByPattern(pat)
+	var ok []string
+	for _, t := range c08AllTexts() {
+		if _, err := c(t); err == nil {
+			ok = append(ok, t)
+		}
+	}
+	return ok[n%len(ok)]
 }
 
 // mergeInto adds src into dst (maps merged recursively, anything else replaced).
@@ -661,6 +690,7 @@ func mergeInto(dst, src map[string]any) {
 }
 
 func init() {
+	logrus.SetOutput(io.Discard)
 	core.Register("interpolate", &core.CheckDef{
 		Real:     realInterpolate,
 		DriverOp: "interpolate",
